@@ -225,15 +225,22 @@ pub fn main(args: &util::Args) {
     // minimised past failures kept under /verif/corpus
     for sub in ["C01", "C01pipe", "C02", "C03", "C06", "C07", "C08", "C09"] {
         let Ok(rd) = std::fs::read_dir(util::verif_root().join("corpus").join(sub)) else { continue };
-        let mut files: Vec<_> = rd.filter_map(|e| e.ok().map(|e| e.path())).filter(|p| p.extension().is_some_and(|x| x == "gom")).collect();
+        // a witness is a single file `<name>.gom` or a project `<name>/main.gom` (+ package sub-directories), compiled where it lives
+        let mut files: Vec<_> = rd
+            .filter_map(|e| e.ok().map(|e| e.path()))
+            .filter(|p| p.extension().is_some_and(|x| x == "gom") || p.join("main.gom").is_file())
+            .collect();
         files.sort();
         let dir = util::scratch_dir("c01c");
         for f in files {
+            let project = f.is_dir();
+            let name = f.file_name().unwrap().to_string_lossy().to_string();
+            let f = if project { f.join("main.gom") } else { f };
             let Ok(src) = std::fs::read_to_string(&f) else { continue };
-            let id = format!("corpus:{}/{}", sub, f.file_name().unwrap().to_string_lossy());
+            let id = format!("corpus:{}/{}", sub, name);
             // `<name>.gom.out`: the output the SOURCE denotes, written down by hand with the witness
             let expected = std::fs::read_to_string(format!("{}.out", f.display())).ok();
-            match util::compile_text(&dir, &src) {
+            match if project { util::compile_path(&f, &src) } else { util::compile_text(&dir, &src) } {
                 Outcome::Ok(c) => {
                     writeln!(
                         out,
@@ -244,7 +251,7 @@ pub fn main(args: &util::Args) {
                     )
                     .unwrap();
                     writeln!(out, "{}\tSRC\t{}", id, crate::sexp::esc_line(&src)).unwrap();
-                    dump_src(&id, &dir.join("main.gom"), &src, &mut out);
+                    dump_src(&id, &if project { f.clone() } else { dir.join("main.gom") }, &src, &mut out);
                     dump_case(&id, &c, &mut out);
                 }
                 Outcome::Err(stage, msgs) => writeln!(out, "{}\tREJECT\t{}\t{}\t{}", id, stage, crate::sexp::esc_line(&msgs.join(" | ")), crate::sexp::esc_line(&src)).unwrap(),
@@ -273,6 +280,7 @@ pub fn main(args: &util::Args) {
                 vec_generics: true,
                 overlapping_impls: true,
                 result_only_generics: true,
+                cov_shapes: i % 4 == 1,
                 finite_polyrec: true,
                 ..Default::default()
             }
@@ -288,17 +296,19 @@ pub fn main(args: &util::Args) {
             lit_field_effects: i % 20 == 7,
             nested_patterns: i % 4 == 1,
             logic_rhs_shapes: i % 5 == 2,
+            cov_shapes: i % 6 == 4,
             ..Default::default()
         } };
         let (src, feats) = crate::progen::gen_program(&mut rng, cfg);
         let id = format!(
-            "gen:{}:{}{}{}{}{}",
+            "gen:{}:{}{}{}{}{}{}",
             args.seed,
             i,
             if rich { ":rg" } else { "" },
             if cfg.closure_flows { ":cf" } else { "" },
             if cfg.wildcard_arrays { ":wa" } else { "" },
-            if cfg.lit_field_effects { ":lfe" } else { "" }
+            if cfg.lit_field_effects { ":lfe" } else { "" },
+            if cfg.cov_shapes { ":cov" } else { "" }
         );
         match util::compile_text(&dir, &src) {
             Outcome::Ok(c) => {
